@@ -221,15 +221,15 @@ func genOps(r *hx.Rng, n int) []*Op {
 		v := r.Intn(views)
 		o := &Op{V: v}
 		switch x := r.Intn(100); {
-		case x < 14:
+		case x < 12:
 			o.O, o.A = "get", hx2(rkey(r, 3))
-		case x < 18:
+		case x < 15:
 			o.O, o.A = "has", hx2(rkey(r, 3))
-		case x < 40:
+		case x < 36:
 			o.O, o.A, o.X = "set", hx2(rkey(r, 3)), hx2(rval(r))
-		case x < 55:
+		case x < 49:
 			o.O, o.A = "del", hx2(rkey(r, 3))
-		case x < 70:
+		case x < 63:
 			o.O, o.A, o.B, o.L, o.R = "range", hx2(rkey(r, 2)), hx2(rkey(r, 3)), rlimit(r), r.Bool()
 			if r.Intn(3) == 0 {
 				o.A = ""
@@ -237,25 +237,34 @@ func genOps(r *hx.Rng, n int) []*Op {
 			if r.Intn(3) == 0 {
 				o.B = "ffffff"
 			}
-		case x < 82:
+		case x < 75:
 			o.O, o.A, o.L, o.R = "iter", hx2(rkey(r, 2)), rlimit(r), r.Bool()
-		case x < 88:
+		case x < 81:
 			o.O = "snap"
 			snapCount[v]++
-		case x < 93:
+		case x < 86:
 			o.O = "restore"
 			if snapCount[v] > 0 && r.Intn(5) != 0 {
 				o.ID = r.Intn(snapCount[v])
 			} else {
 				o.ID = r.Intn(4)
 			}
-		case x < 95:
+		case x < 88:
 			o.O, o.ID = "delsnap", r.Intn(3)
 		default:
-			if views >= 3 {
+			// WithPrefix, preferably of an already derived view: nested views (state -> module -> store), several
+			// siblings off one derived parent, prefixes of different lengths; old and new siblings are then used interleaved
+			if views >= 7 {
 				o.O, o.A = "get", hx2(rkey(r, 3))
 			} else {
-				o.O, o.A = "view", hx2(rkey(r, 2))
+				if views > 1 && r.Intn(4) != 0 {
+					o.V = 1 + r.Intn(views-1)
+				}
+				p := rkey(r, 3)
+				if len(p) == 0 && r.Intn(3) != 0 {
+					p = []byte{alphabet[r.Intn(len(alphabet))]}
+				}
+				o.O, o.A = "view", hx2(p)
 				views++
 				snapCount = append(snapCount, 0)
 			}
